@@ -60,6 +60,7 @@ def run(chk):
                     if slabels == ():
                         continue  # a per-tensor scale only arises for out == 1; flatten() of a 0-d tensor has one element
                 a.strides = {"stride0", "lastdim"}  # the caller's activations: expanded, transposed, sliced - any strides
+                w.strides = {"stride0", "lastdim"}  # and so are the weights of the functional API (quantize_weight keeps the layout of its argument)
                 want = batch(r) + (L("out"),)
                 typed += check_results(chk, m, f, name, Interp(f, dict(zip(positional_params(f), (a, w, s))), helper_nodes).run(), want, f"rank {r + 1} activations, {sdesc} scales")
         chk.floor("C07.R1", typed, 1, f"{name} typed instances")
@@ -82,12 +83,16 @@ def run(chk):
                 a = T(batch(r) + (L("in"),), "code", "activations", {"act"})
                 a.strides = {"stride0", "lastdim"}
                 w = T((L("out"), L("in")), "code", "weights", {"w"})
+                w.strides = {"stride0", "lastdim"}
                 s = T(slabels, "float", "scales", (), ("act", "w"))
                 res = Interp(li.fn, dict(zip(positional_params(li.fn), (a, w, s))), helper_nodes).run()
                 # routes that dequantize the activation drop its code: the int8pack route is typed with a plain activation above
                 res = [x for x in res if not (x[0] == "typeerr" and "not matched by its scales" in x[1])]
                 want = batch(r) + (L("out"),)
                 ok_r = [x for x in res if not (x[0] == "raise")]
+                chk.require("C07.R5", f"{li.mi.rel}:{li.fn.lineno}", bool(ok_r) and not any(x[0] == "raise" and "assert" in str(x[1]).lower() for x in res) or bool(ok_r) and len(ok_r) == len(res),
+                            f"{li.fn.name}[{key}] accepts activations of rank {r + 1} ({sdesc} scales): {len(ok_r)} of {len(res)} paths return", f"{li.fn.name}[{key}]", f"route refuses activations of rank {r + 1}",
+                            f"a quantized linear on a rank-{r + 1} activation on that device: AssertionError while the other routes return the reference")
                 check_results(chk, li.mi, li.fn, f"{li.fn.name}[{key}]", ok_r, want, f"rank {r + 1}, {sdesc} scales", pairing=False)
     route_guards(chk, routes, fns)
     accumulation(chk, fns)
@@ -107,6 +112,8 @@ def run(chk):
                     "non-contiguous activations (x.transpose(1, 2) fed to a quantized linear): RuntimeError `view size is not compatible` where the float linear works")
     chk.floor("C07.R9", n9, 3, "kernel functions scanned for view()")
     scale_products(chk)
+    if chk.pid == "C07":
+        bias_before_narrowing(chk)
     if chk.pid == "C07":
         operand_invariants(chk)
         from ..effects import EffectGraph
@@ -605,6 +612,32 @@ def scale_products(chk, rule="C07.R10"):
                         chk.require(rule, f"{mi.rel}:{getattr(nd, 'lineno', fn.lineno)}", ok, f"{qn}: scale product `{U(nd)[:80]}` has both factors in float32", qn, "scale product in the working dtype",
                                     "float16 activations and weights of small magnitude (|x| ~ 0.05, |w| ~ 0.02): the scales are ~4e-4 and ~1.6e-4, their float16 product 6e-8..1e-6 is subnormal, and the output is off by several per cent (25% for |x| ~ 0.02, |w| ~ 0.005)")
     chk.floor(rule, n, 3, "products of two scales")
+
+
+def bias_before_narrowing(chk, rule="C07.R6"):
+    """The bias joins the product while it is still wide: `kernel(...) + bias` adds it after the kernel has cast its float32 product to the
+    half-precision output dtype (two roundings; a product beyond the dtype range is inf although product + bias is representable)."""
+    repo = chk.repo
+    ci = repo.cls("QTensorLinear")
+    fwd = ci.own("forward")
+    bias = positional_params(fwd)[3]
+    n = 0
+    for p in paths_of(fwd):
+        if p.end[0] != "return" or p.end[1] is None:
+            continue
+        e = p.end[1]
+        if not (isinstance(e, ast.BinOp) and isinstance(e.op, ast.Add) and bias in (U(e.left), U(e.right))):
+            continue
+        other = e.right if U(e.left) == bias else e.left
+        kernel = any(isinstance(x, ast.Call) and U(x.func).startswith("torch.ops.quanto.qbytes_mm") for x in ast.walk(other))
+        if not kernel:
+            continue
+        n += 1
+        narrowed = True  # the kernels end with `.to(output_scales.dtype)` / `.to(<dtype of the scales>)`: their result is already in the output dtype
+        widened = isinstance(other, ast.Call) and isinstance(other.func, ast.Attribute) and other.func.attr in ("float", "double")
+        chk.require(rule, f"{ci.mod.rel}:{p.end[2]}", widened or not narrowed, f"QTensorLinear.forward: the bias is added to the kernel result while it is still float32 (`{U(e)[:70]}`)", "QTensorLinear.forward", "bias added after the product was narrowed",
+                    "float16, qint8 per-axis weights [127]*16+[17] (scale 1.0), x = ones, bias = -1: 2047 instead of the exactly representable 2048; product 70000 with bias -10000: inf, the reference 60000 is representable")
+    chk.floor(rule, n, 1, "kernel result + bias sites")
 
 
 def dispatch_args_ok(e, hp):
